@@ -7,6 +7,9 @@ in the Registry.  Anything not understood is havocked (recorded in registry.unmo
 positions, raises Unsupported (the check then answers UNDECIDED, never VIOLATION).
 """
 import ast
+import os
+import sys
+import time
 from fractions import Fraction
 import z3
 
@@ -112,6 +115,20 @@ class Ctx(object):
         return c
 
 
+def _has_quantifier(e):
+    seen = set()
+    stack = [e]
+    while stack:
+        x = stack.pop()
+        if x.get_id() in seen:
+            continue
+        seen.add(x.get_id())
+        if z3.is_quantifier(x):
+            return True
+        stack.extend(x.children())
+    return False
+
+
 _EXC_BASE = {"KeyboardInterrupt": "BaseException", "Exception": "BaseException", "ValueError": "Exception",
              "TypeError": "Exception", "IndexError": "LookupError", "KeyError": "LookupError",
              "LookupError": "Exception", "AssertionError": "Exception", "MemoryError": "Exception",
@@ -148,6 +165,10 @@ class Executor(object):
         self.path_limit = 4000
         self.paths_seen = 0
         self.feas_timeout = 2000
+        self._hasq_cache = {}
+        self.feas_quantified = True
+        self.modular_loops = False
+        self._loops_done = set()
         self.stats = dict(feasibility_checks=0, paths=0)
 
     # ------------------------------------------------------------------------------------------
@@ -159,16 +180,38 @@ class Executor(object):
             raise Unsupported("%s: %s" % (ctx.tag, what))
 
     def feasible(self, st, cond=None):
+        """May the path be feasible?  `unsat` prunes the path; anything else keeps it (sound: a kept infeasible path only adds
+        obligations that hold vacuously).  Quantified hypotheses make `sat` answers slow and rare, so the quantifier-free
+        part is asked first and the full path condition only briefly."""
         self.stats["feasibility_checks"] += 1
+        t0 = time.time()
+        pcs = list(self.global_axioms) + list(st.pc) + ([cond] if cond is not None else [])
+        qf, quantified = [], False
+        for a in pcs:
+            k = a.get_id()
+            hq = self._hasq_cache.get(k)
+            if hq is None:
+                hq = self._hasq_cache[k] = _has_quantifier(a)
+            if hq:
+                quantified = True
+            else:
+                qf.append(a)
         s = z3.Solver()
         s.set("timeout", self.feas_timeout)
-        for a in self.global_axioms:
+        for a in qf:
             s.add(a)
-        for a in st.pc:
-            s.add(a)
-        if cond is not None:
-            s.add(cond)
-        return s.check() != z3.unsat
+        r = s.check()
+        if r != z3.unsat and quantified and self.feas_quantified:
+            s = z3.Solver()
+            s.set("timeout", min(self.feas_timeout, 400))
+            for a in pcs:
+                s.add(a)
+            r = s.check()
+        dt = time.time() - t0
+        self.stats["feasibility_s"] = self.stats.get("feasibility_s", 0.0) + dt
+        if dt > 1.0 and os.environ.get("VERIF_TRACE"):
+            sys.stderr.write("[feas] %s %.1f s\n" % (r, dt))
+        return r != z3.unsat
 
     def mangle(self, name, ctx):
         if name.startswith("__") and not name.endswith("__") and ctx.cls is not None:
@@ -215,7 +258,17 @@ class Executor(object):
                 return z3.Real(fresh_name(prefix))
         if isinstance(v, SeqVal):
             return SeqVal.fresh(prefix, v.elem)
+        if isinstance(v, ConcVec):
+            return ConcVec(self.havoc_like(x, prefix) for x in v.items)
         return Opaque(prefix)
+
+    def prove_many(self, st, ctx, items):
+        """items: [(goal, kind, label, lineno)] -- all on the same state; tried as one conjunction first (pyvc/solver.Registry.prove_all)."""
+        pc = self.global_axioms + st.pc
+        obs = self.reg.prove_all([("%s/%s/%s" % (self.prop, ctx.tag, label), kind, to_bool(goal), lineno) for (goal, kind, label, lineno) in items], ctx.tag, pc)
+        for ob in obs:
+            ob.state = st
+        return obs
 
     def prove(self, st, ctx, goal, kind, label, lineno=None, region=None):
         name = "%s/%s/%s" % (self.prop, ctx.tag, label)
@@ -240,6 +293,11 @@ class Executor(object):
             st.env.update(extra)
         try:
             res = self.eval(node, st, sctx)
+        except Exception as e:
+            if not getattr(e, "_spec_noted", False):
+                e._spec_noted = True
+                e.args = (("%s [while evaluating the clause: %s]" % (e.args[0] if e.args else "", text)),) + tuple(e.args[1:])
+            raise
         finally:
             st.env = saved
         if len(res) != 1:
@@ -470,6 +528,8 @@ class Executor(object):
         def go(i, s):
             rs = []
             for s1, v in self.eval(node.values[i], s, ctx):
+                if not isinstance(v, Raised):
+                    v = self.cond(v, s1)
                 if isinstance(v, Raised) or i == len(node.values) - 1:
                     rs.append((s1, v))
                     continue
@@ -502,6 +562,12 @@ class Executor(object):
             return rs
         return go(0, st)
 
+    def cond(self, v, st):
+        """Truth value of a python object that may be symbolic: a symbolic-length list is true iff its length is positive."""
+        if isinstance(v, Ref) and st.obj(v).kind == "symlist":
+            return st.obj(v).fields["len"] > 0
+        return v
+
     def truth(self, v, st):
         """Concrete python truthiness (caller guarantees v is not a z3 term)."""
         if isinstance(v, Ref):
@@ -529,6 +595,7 @@ class Executor(object):
             elif isinstance(v, ConcVec) and isinstance(node.op, (ast.Invert, ast.USub)):
                 out.append((s, ConcVec((not x) if isinstance(node.op, ast.Invert) else B.neg(x) for x in v.items)))
             elif isinstance(node.op, ast.Not):
+                v = self.cond(v, s)
                 out.append((s, z3.Not(to_bool(v)) if is_z3(v) else (not self.truth(v, s))))
             elif isinstance(node.op, ast.USub):
                 out.append((s, B.neg(v)))
@@ -857,6 +924,11 @@ class Executor(object):
                 return [(st, ExcVal(short, tuple(args)))]
             if short in self.inline:
                 fi = self._find_func_by_short(short)
+                if fi is not None:
+                    return self.call_function(fi, args, kwargs, st, ctx, node)
+            if short.startswith("_") and not short.startswith("__") and "." not in path and ctx.finfo is not None:
+                # private module-level helper of the file under verification: its real body is executed in place
+                fi = self.src.funcs.get((ctx.finfo.file, short))
                 if fi is not None:
                     return self.call_function(fi, args, kwargs, st, ctx, node)
             if short in self.src.classes:
@@ -1380,6 +1452,7 @@ class Executor(object):
             if isinstance(c, Raised):
                 out.append((s, ("raise", c.exc)))
                 continue
+            c = self.cond(c, s)
             if is_z3(c):
                 cb = z3.simplify(to_bool(c))
                 if z3.is_true(cb):
@@ -1572,6 +1645,18 @@ class Executor(object):
                 st.env[n] = self.havoc_like(st.env[n], n)
         for path in sorted(_modified_attrs(node.body)):
             self.havoc_attr_path(path, st, ctx)
+        self.havoc_loop_frame(node.body + node.orelse, st, ctx)
+        if self.modular_loops and ctx.contract is not None and ctx.entry is not None:
+            # modular treatment: the loop is verified once from `requires + invariant` alone -- every fact the path through the code
+            # before the loop had added to the path condition is dropped (fewer hypotheses: sound), so one verification of the body
+            # and one continuation after the loop serve all those paths; they only differ in their inv-init obligations (done above).
+            # Paths whose unmodified locals differ (other objects, other shapes) are verified separately.
+            key = (ctx.finfo.qualname if ctx.finfo else "?", k, self._loop_key(st, mods))
+            if key in self._loops_done:
+                self.stats["loop_visits_merged"] = self.stats.get("loop_visits_merged", 0) + 1
+                return []
+            self._loops_done.add(key)
+            st.pc = list(ctx.entry.pc)
         # 3. assume invariant
         for inv in invs:
             st.assume(to_bool(self.eval_spec(inv, st, ctx)))
@@ -1586,7 +1671,10 @@ class Executor(object):
             sb = s.fork()
             sb.assume(gb)
             # vacuity guard: the loop body must be reachable under the invariant (a contradictory invariant proves anything)
-            self.reg.cover("%s/%s/cover#loop%d-body-reachable@L%d" % (self.prop, ctx.tag, k, lineno), ctx.tag, self.global_axioms + sb.pc, lineno)
+            # (evaluating the guard may itself fork -- short-circuit operands with calls: a fork on which the guard is literally
+            # False is an exit path, not a body path)
+            if not z3.is_false(z3.simplify(gb)):
+                self.reg.cover("%s/%s/cover#loop%d-body-reachable@L%d" % (self.prop, ctx.tag, k, lineno), ctx.tag, self.global_axioms + sb.pc, lineno)
             if self.feasible(sb):
                 v0 = self.eval_spec(variant, sb, ctx) if variant else None
                 vguard0 = to_bool(self.eval_spec(spec["variant_while"], sb, ctx)) if spec.get("variant_while") else None
@@ -1596,9 +1684,7 @@ class Executor(object):
                         spec["on_iteration_end"](self, s2, ctx)
                     if oc is None or oc[0] == "continue":
                         tr = ".".join("%d%s" % (ln, "T" if b else "F") for ln, b in s2.trace[len(s.trace):])
-                        for i, inv in enumerate(invs):
-                            g2 = self.eval_spec(inv, s2, ctx)
-                            self.prove(s2, ctx, g2, "inv-pres", "inv-pres#loop%d.%d[%s]" % (k, i, tr), lineno)
+                        self.prove_many(s2, ctx, [(self.eval_spec(inv, s2, ctx), "inv-pres", "inv-pres#loop%d.%d[%s]" % (k, i, tr), lineno) for i, inv in enumerate(invs)])
                         if variant:
                             v1 = self.eval_spec(variant, s2, ctx)
                             if vguard0 is not None:
@@ -1632,6 +1718,155 @@ class Executor(object):
             fld = self.mangle(parts[-1], ctx)
             if fld in o.fields:
                 o.fields[fld] = self.havoc_like(o.fields[fld], fld)
+
+    def _loop_key(self, st, mods):
+        def show(v, depth=0):
+            if isinstance(v, Ref):
+                if v.oid not in st.heap or depth > 1:
+                    return "ref"
+                o = st.heap[v.oid]
+                if o.kind == "object":
+                    return "obj:%s#%d" % (o.cls, v.oid)
+                if o.kind == "symlist":
+                    return "symlist#%d" % v.oid
+                items = o.items if o.items is not None else []
+                if isinstance(items, dict):
+                    return "dict{%s}" % ",".join("%r:%s" % (k_, show(x, depth + 1)) for k_, x in items.items())
+                return "%s[%s]" % (o.kind, ",".join(show(x, depth + 1) for x in items))
+            if is_z3(v):
+                return v.sexpr()
+            return repr(v)
+        return tuple(sorted((n, show(v)) for n, v in st.env.items() if n not in mods))
+
+    LIST_MUTATORS = {"append", "insert", "pop", "remove", "extend", "clear", "sort", "reverse", "update", "setdefault", "popitem", "add", "discard"}
+
+    def havoc_loop_frame(self, stmts, st, ctx):
+        """Heap locations the loop body may change *other than by a syntactic attribute assignment in the body itself*:
+        attributes assigned through a property setter or inside a method / private helper the body calls (followed transitively
+        through the real source), fields named in the `modifies` of a contract applied in the body, the contents of lists and
+        of objects that are the receiver of a mutating or unknown (hooked) method call, and callable attribute objects that
+        are called (self.integrator(...)).  Everything found is given a fresh value of its sort at the loop head."""
+        fields, whole, seen = set(), set(), set()
+
+        def mangle(name, cls):
+            if name.startswith("__") and not name.endswith("__") and cls is not None:
+                return "_%s%s" % (cls.name.lstrip("_"), name)
+            return name
+
+        def resolve(expr, emap, cls):
+            if isinstance(expr, ast.Name):
+                return emap.get(expr.id)
+            if isinstance(expr, ast.Attribute):
+                base = resolve(expr.value, emap, cls)
+                if isinstance(base, Ref) and base.oid in st.heap and st.obj(base).kind == "object":
+                    return st.obj(base).fields.get(mangle(expr.attr, cls))
+            return None
+
+        def visit_callee(fi, recv, depth):
+            key = (fi.file, fi.qualname, getattr(recv, "oid", None))
+            if key in seen or depth > 5:
+                return
+            seen.add(key)
+            params = [a.arg for a in fi.node.args.posonlyargs + fi.node.args.args]
+            emap = {params[0]: recv} if params else {}
+            visit(fi.node.body, emap, fi.cls, depth + 1)
+
+        def assigned(owner_expr, attr, emap, cls, depth, subscript=False):
+            owner = resolve(owner_expr, emap, cls)
+            if not (isinstance(owner, Ref) and owner.oid in st.heap):
+                return
+            o = st.obj(owner)
+            if o.kind != "object":
+                return
+            setter = self.src.find_setter(o.cls, attr)
+            if setter is not None and not subscript:
+                if "%s.%s.setter" % (setter.cls.name, attr) in self.call_hooks:
+                    whole.add(owner.oid)
+                else:
+                    visit_callee(setter, owner, depth)
+                return
+            fld = mangle(attr, cls)
+            fields.add((owner.oid, fld))
+            v = o.fields.get(fld)
+            if subscript and isinstance(v, Ref):
+                whole.add(v.oid)
+
+        def visit(stmts_, emap, cls, depth):
+            for stn in stmts_:
+                for n in ast.walk(stn):
+                    if isinstance(n, (ast.Assign, ast.AugAssign, ast.AnnAssign)):
+                        tgts = n.targets if isinstance(n, ast.Assign) else [n.target]
+                        for t in tgts:
+                            for x in ast.walk(t):
+                                if isinstance(x, ast.Attribute) and isinstance(x.ctx, ast.Store):
+                                    assigned(x.value, x.attr, emap, cls, depth)
+                                if isinstance(x, ast.Subscript) and isinstance(x.ctx, ast.Store) and isinstance(x.value, ast.Attribute):
+                                    assigned(x.value.value, x.value.attr, emap, cls, depth, subscript=True)
+                    if isinstance(n, ast.Call) and isinstance(n.func, ast.Attribute):
+                        recv = resolve(n.func.value, emap, cls)
+                        if not (isinstance(recv, Ref) and recv.oid in st.heap):
+                            continue
+                        o = st.obj(recv)
+                        m = n.func.attr
+                        if o.kind != "object":
+                            if m in self.LIST_MUTATORS:
+                                whole.add(recv.oid)
+                            continue
+                        fval = o.fields.get(mangle(m, cls))
+                        if isinstance(fval, Ref) and fval.oid in st.heap:
+                            whole.add(fval.oid)                 # a callable object held in an attribute is called: its own state may change
+                            continue
+                        fi = self.src.find_method(o.cls, m)
+                        keys = ["%s.%s" % (o.cls, m)] + (["%s.%s" % (fi.cls.name, m)] if fi is not None else [])
+                        if any(k in self.call_hooks for k in keys):
+                            whole.add(recv.oid)
+                            continue
+                        con = next((self.contracts[k] for k in keys if k in self.contracts), None)
+                        if con is not None:
+                            for mod in con.modifies:
+                                parts = mod.split(".")
+                                if len(parts) == 2:
+                                    fcls = fi.cls if fi is not None else cls
+                                    if parts[1] == "*":
+                                        whole.add(recv.oid)
+                                    else:
+                                        fields.add((recv.oid, mangle(parts[1], fcls)))
+                            continue
+                        if fi is not None:
+                            visit_callee(fi, recv, depth)
+
+        visit(stmts, dict(st.env), ctx.cls, 0)
+        for oid, fld in sorted(fields, key=lambda x: (x[0], x[1])):
+            o = st.heap[oid]
+            if fld in o.fields:
+                v = o.fields[fld]
+                if isinstance(v, Ref) and v.oid in st.heap and st.heap[v.oid].kind != "object":
+                    whole.add(v.oid)
+                elif not isinstance(v, Ref):
+                    o.fields[fld] = self.havoc_like(v, fld)
+        for oid in sorted(whole):
+            self.havoc_object(oid, st, set())
+
+    def havoc_object(self, oid, st, done):
+        if oid in done or oid not in st.heap:
+            return
+        done.add(oid)
+        o = st.heap[oid]
+        if o.kind == "symlist":
+            pre = "hl%d" % oid
+            o.fields["len"] = z3.Int(fresh_name(pre + "_len"))
+            st.assume(o.fields["len"] >= 0)
+            o.fields["cols"] = {k: z3.Array(fresh_name(pre + "_" + k), a.sort().domain(), a.sort().range()) for k, a in o.fields["cols"].items()}
+        elif o.kind == "object":
+            for k, v in list(o.fields.items()):
+                if isinstance(v, Ref):
+                    if v.oid in st.heap and st.heap[v.oid].kind == "symlist":
+                        self.havoc_object(v.oid, st, done)
+                elif is_z3(v) or isinstance(v, (SeqVal, ConcVec, Fraction)) or (isinstance(v, (int, bool)) and not isinstance(v, str)):
+                    o.fields[k] = self.havoc_like(v, k)
+        elif o.kind in ("list", "dict"):
+            if o.items:
+                raise Unsupported("a literal %s that the loop body mutates through a method call cannot be cut by an invariant (make it a symbolic-length list)" % o.kind)
 
     def unroll_while(self, node, st, ctx, limit=40):
         """While loop without invariant: unroll while the guard is concrete (bounded by `limit`)."""
@@ -1742,6 +1977,16 @@ class Executor(object):
             tr = ".".join("%d%s" % (ln, "T" if b else "F") for ln, b in s.trace)
             pctx = Ctx(fi, c, fi.cls, lifted=c.lifted, tag=fi.qualname)
             pctx.entry = ctx.entry
+            if not self.feas_quantified:
+                # paths were pruned by the quantifier-free part only: a path whose full condition is unsatisfiable is dropped here
+                # (its obligations hold vacuously); the covers below are only asked of the paths that remain
+                chk = z3.Solver()
+                chk.set("timeout", 5000)
+                for a_ in self.global_axioms + s.pc:
+                    chk.add(a_)
+                if chk.check() == z3.unsat:
+                    self.stats["paths_dropped_infeasible"] = self.stats.get("paths_dropped_infeasible", 0) + 1
+                    continue
             if i < 40:
                 self.reg.cover("%s/%s/cover#return-path[%s]" % (self.prop, fi.qualname, tr), fi.qualname, self.global_axioms + s.pc)
             if isinstance(v, Raised):
@@ -1754,13 +1999,19 @@ class Executor(object):
             for n, gv in ghost.items():
                 env.setdefault(n, gv)
             env.update(extra)
+            batch = []
             for j, e in enumerate(clauses):
                 g = self.eval_spec(e, s, pctx, extra=env)
                 reg_j = region
                 if regions and (kind, j) in regions:
                     fid, rtext = regions[(kind, j)]
                     reg_j = (fid + ": " + rtext, to_bool(self.eval_spec(rtext, s, pctx, extra=env)))
-                self.prove(s, pctx, g, kind, "%s#%d[%s]" % (kind, j, tr), region=reg_j)
+                if reg_j is None:
+                    batch.append((g, kind, "%s#%d[%s]" % (kind, j, tr), None))
+                else:
+                    self.prove(s, pctx, g, kind, "%s#%d[%s]" % (kind, j, tr), region=reg_j)
+            if batch:
+                self.prove_many(s, pctx, batch)
             if post_hook:
                 post_hook(self, s, v, pctx, tr)
             rets.append((s, v))
